@@ -53,7 +53,13 @@ func GetIndexLetters(document *gedcom.Document, livingVisibility LivingVisibilit
 }
 
 func getIndexLetter(individual *gedcom.IndividualNode) rune {
-	name := strings.ToLower(individual.Name().Surname())
+	return getIndexLetterForSurname(individual.Name().Surname())
+}
+
+// getIndexLetterForSurname returns the letter of the index page that lists a
+// surname. Anything that does not start with a to z is on the symbol page.
+func getIndexLetterForSurname(surname string) rune {
+	name := strings.ToLower(surname)
 
 	switch {
 	case name == "", name[0] < 'a', name[0] > 'z':
